@@ -113,6 +113,11 @@ Definition rev_spec_ok (m : fmode) (pre : text) (v : res (list text)) : bool :=
       | Some t => negb (no_lone_cr t) || lres_eqb v (Ok (reverse_lines_spec t))
       | None => true              (* not a text: outside the property's domain *)
       end
+  | TextTable tbl =>
+      match sb_decode tbl pre with
+      | Some t => negb (no_lone_cr t) || lres_eqb v (Ok (reverse_lines_spec t))
+      | None => true
+      end
   end.
 
 (* same objects, reversed, whenever no error ends either iteration *)
@@ -138,7 +143,14 @@ Definition jsonl_spec_ok (m : fmode) (ie : bool) (c : text) (fwd rev_ : res (lis
                 | None => true
                 end
   | TextLatin1 => jsonl_spec_on mini_loads is_ws_str ie c fwd rev_
+  | TextTable tbl => match sb_decode tbl c with
+                     | Some t => jsonl_spec_on mini_loads is_ws_str ie t fwd rev_
+                     | None => true
+                     end
   end.
+
+(* the i-th single-byte codec table regenerated from the interpreter's codecs (Gen.C19_Gen) *)
+Definition sbcs (i : nat) : fmode := TextTable (nth i gen_sbcs []).
 
 Definition c19_verdict (k : c19_case) : verdict :=
   match k with
